@@ -248,6 +248,41 @@ def build_traces(path, tier, seed):
             yp = gn.remove_poly(x + float(np.max(np.abs(x)) + 1) * poly(n, d), poly_fit=d)
             fn = "fns.generic.remove_poly"
         add({"kind": "detrend", "deg": d, "x": enc_seq(x), "y": enc_seq(y), "y2": enc_seq(y2), "yp": enc_seq(yp), "pscale": enc(6.75 * float(np.max(np.abs(x)) + 1))}, {"kind": "detrend", "fn": fn, "n": n, "deg": d, "shape": shape})
+    # --- detrending an object that was ALREADY detrended (to the same or a higher degree) and then changed in place through the public
+    #     API: the polynomial fitted to the record it holds NOW is removed
+    for j in range(8 if tier == "quick" else 40):
+        n = int(rng.integers(30, 300))
+        x0, shape = gen.record(rng, n, amp=float(10.0 ** rng.uniform(-1, 1)))
+        x0 = np.array(x0) + 0.4 * float(np.max(np.abs(x0)) + 0.1) * np.sin(np.arange(n) / max(3.0, n / 5.0))
+        k1 = int(rng.integers(0, 5))
+        k2 = int(rng.integers(0, k1 + 1))
+        o = eqsig.AccSignal(x0.copy(), 0.01)
+        o.remove_poly(k1)
+        how = j % 5
+        with warnings.catch_warnings():
+            warnings.simplefilter("ignore")
+            if how == 0:
+                o.rebase_displacement()
+            elif how == 1:
+                o.remove_rolling_average(mtype="acc", freq_window=7)
+            elif how == 2:
+                v_ = o.values
+                v_ += np.linspace(0.0, 1.0, n) ** 2 * float(np.max(np.abs(v_)) + 0.1)
+                o.reset_values(v_)
+            elif how == 3:
+                o.set_zero_residual_velocity()
+            else:
+                o.remove_rolling_average(mtype="velocity", freq_window=9)
+        x = np.array(o.values, dtype=float)
+        o.remove_poly(k2)
+        y = np.array(o.values)
+        o.remove_poly(poly_fit=k2)
+        y2 = np.array(o.values)
+        op = eqsig.Signal(x + float(np.max(np.abs(x)) + 1) * poly(n, k2), 0.01)
+        op.remove_poly(k2)
+        yp = np.array(op.values)
+        add({"kind": "detrend", "deg": k2, "x": enc_seq(x), "y": enc_seq(y), "y2": enc_seq(y2), "yp": enc_seq(yp), "pscale": enc(6.75 * float(np.max(np.abs(x)) + 1))},
+            {"kind": "detrend", "fn": "AccSignal.remove_poly(%d) after remove_poly(%d) and an in-place change (%d)" % (k2, k1, how), "n": n, "deg": k2, "shape": shape})
     # --- adding
     nadd = 72 if tier == "quick" else 360
     for i in range(nadd):
